@@ -15,6 +15,7 @@ import (
 
 	"sync/atomic"
 
+	"github.com/douban/gobeansdb/cmem"
 	"github.com/douban/gobeansdb/config"
 	"github.com/douban/gobeansdb/loghub"
 	"github.com/douban/gobeansdb/utils"
@@ -124,6 +125,11 @@ func (c *ServerConn) ServeOnce(storageClient StorageClient, stats *Stats) (err e
 		}
 	} else if overdue(req.ReceiveTime, t) {
 		req.SetStat("recv_timeout")
+		if req.Item != nil {
+			// the command is not processed: release its (counted) value buffer
+			cmem.DBRL.SetData.SubSizeAndCount(req.Item.CArray.Cap)
+			req.Item.CArray.Free()
+		}
 		resp = new(Response)
 		resp.Status = "RECV_TIMEOUT"
 		resp.Msg = "recv_timeout"
